@@ -10,6 +10,7 @@ import (
 	"strconv"
 	"strings"
 	"testing"
+	"time"
 
 	ucfg "github.com/elastic/go-ucfg"
 
@@ -42,12 +43,22 @@ func blankIndices(path string) string {
 	return strings.Join(segs, ".")
 }
 
+// The option `squash` is a synonym of `inline`. The shared type descriptor
+// renders `inline` only, but it renders the Policy slot verbatim as a tag
+// option, so "squash" (or "squash,append") in that slot yields a squash field.
+func isInline(f *gen.FD) bool { return f.Inline || strings.HasPrefix(f.Policy, "squash") }
+
+// listPolicyOf returns the list policy option of the field ("" if none).
+func listPolicyOf(f *gen.FD) string {
+	return strings.TrimPrefix(strings.TrimPrefix(f.Policy, "squash"), ",")
+}
+
 func hasPolicyTag(td *gen.TD) bool {
 	if td == nil {
 		return false
 	}
 	for i := range td.Fields {
-		if td.Fields[i].Policy != "" || hasPolicyTag(td.Fields[i].T) {
+		if listPolicyOf(&td.Fields[i]) != "" || hasPolicyTag(td.Fields[i].T) {
 			return true
 		}
 	}
@@ -83,8 +94,11 @@ type typeFacts struct {
 	tagOnNamedString                            bool // D47: required / nonzero ignored on fields of a named string type
 	ptrPtrValidator                             bool // D49: Validate() of an unmentioned pre-filled value behind two or more pointer levels is not called
 	validators                                  int  // tags and Validate methods in the type
+	inlineKinds, inlineTags                     map[string]bool // kinds of inline fields; kinds of inline fields that carry a validate tag
 	cats                                        map[string]bool
 	ptr, slice, array, mapk, inline, dur, named bool
+	blankEq                                     bool // a tag spelt with blanks around '='
+	squash                                      bool // an inline field spelt `squash`
 }
 
 func hasValidators(td *gen.TD) bool {
@@ -150,8 +164,21 @@ func (f *typeFacts) scan(td *gen.TD) {
 	case "struct":
 		for i := range sh.Fields {
 			fd := &sh.Fields[i]
-			if fd.Inline {
+			if strings.HasPrefix(fd.Policy, "squash") {
+				f.squash = true
+			}
+			if isInline(fd) {
 				f.inline = true
+				if f.inlineKinds == nil {
+					f.inlineKinds, f.inlineTags = map[string]bool{}, map[string]bool{}
+				}
+				f.inlineKinds[fd.T.Shape().Kind] = true
+				if fd.Validate != "" {
+					f.inlineTags[fd.T.Shape().Kind] = true
+				}
+			}
+			if strings.Contains(fd.Validate, " =") || strings.Contains(fd.Validate, "= ") {
+				f.blankEq = true
 			}
 			if tags := parseTags(fd.Validate); len(tags) > 0 {
 				f.validators += len(tags)
@@ -249,6 +276,7 @@ func (f *typeFacts) avoided() string {
 		{"D45", f.namedString}, {"D31", f.mapOfStructOrArr}, {"D42", f.ptrCollElems},
 		{"D23", f.tagOnPtr}, {"D30", f.ptrToColl}, {"D32", f.tagOnPtrToMap},
 		{"D35", f.mapWithValidator}, {"D41", f.tagOnArray}, {"D47", f.tagOnNamedString}, {"D49", f.ptrPtrValidator},
+		{"D55", f.inlineTags["map"]},
 	} {
 		if c.hit && open(c.id) {
 			return c.id
@@ -385,6 +413,18 @@ func runCase(c Case, r *runlog.R) error {
 			r.Class("name not compared (list policy and references)")
 			match = true
 		}
+		if !match && (!ok || named == "") {
+			// the message names nothing ("accessing config"). There is nothing to name if the rejected validator belongs
+			// to the target itself (empty path), and no struct field encloses the elements of a collection target
+			rootLevel := c.T.Shape().Kind != "struct"
+			for _, e := range append(append([]*eval{}, strict...), soft...) {
+				rootLevel = rootLevel || len(e.path) == 0
+			}
+			if rootLevel {
+				r.Class("name not compared (nothing to name: the target itself)")
+				match = true
+			}
+		}
 		if !match && open("D44") {
 			// class of D44: the names of absent struct fields on the way are
 			// missing from the path ("x" or "a.x" instead of "a.b.x"), or no
@@ -418,8 +458,20 @@ func runCase(c Case, r *runlog.R) error {
 		}
 	}
 	nt := false
-	var fromDefault, fromInit, viaPtr, inColl, inInline, byMethod, byTag bool
+	var fromDefault, fromInit, viaPtr, inColl, inInline, byMethod, byTag, partial, partialInit bool
+	onInline := map[string]bool{}
+	params := map[string]bool{}
 	for _, e := range deciding {
+		if e.partial {
+			partial = true
+			partialInit = partialInit || e.initDef
+		}
+		if e.onInline != "" {
+			onInline[e.onInline] = true
+		}
+		if pc := paramClass(e.numKind, e.what); pc != "" {
+			params[pc] = true
+		}
 		if !e.fromCfg {
 			if e.initDef {
 				fromInit = true
@@ -462,6 +514,14 @@ func runCase(c Case, r *runlog.R) error {
 		r.ClassIf(inInline, "decided in an inline field")
 		r.ClassIf(byMethod, "decided by Validate()")
 		r.ClassIf(byTag, "decided by a tag")
+		r.ClassIf(partial, "decided by an unmentioned element of a partly configured collection")
+		r.ClassIf(partialInit, "decided by an unmentioned InitDefaults element of a partly configured collection")
+		for _, k := range []string{"slice", "array", "map"} {
+			r.ClassIf(onInline[k], "decided by a tag on an inline "+k)
+		}
+		for _, k := range paramClasses {
+			r.ClassIf(params[k], k)
+		}
 	}
 	for _, e := range strict {
 		r.Class("rejecting: " + strings.SplitN(e.what, "=", 2)[0])
@@ -482,11 +542,60 @@ func runCase(c Case, r *runlog.R) error {
 	r.ClassIf(facts.array, "type: array")
 	r.ClassIf(facts.mapk, "type: map")
 	r.ClassIf(facts.inline, "type: inline")
+	for _, k := range []string{"struct", "slice", "array", "map"} {
+		r.ClassIf(facts.inlineKinds[k], "type: inline "+k)
+		r.ClassIf(facts.inlineTags[k], "type: tag on an inline "+k)
+	}
+	if k := c.T.Shape().Kind; k != "struct" {
+		r.Class("target: " + k)
+	}
+	r.ClassIf(facts.blankEq, "type: tag spelt with blanks around '='")
+	r.ClassIf(facts.squash, "type: inline field spelt squash")
 	r.ClassIf(facts.dur, "type: duration")
 	for _, k := range catKinds {
 		r.ClassIf(facts.cats[k], "type: "+k)
 	}
 	return nil
+}
+
+var paramClasses = []string{"param: integer in base-prefix / separator / signed syntax", "param: float in exponent / hex / bare-point / signed syntax",
+	"param: duration in unit syntax", "param: duration as fractional seconds", "param: duration as negative seconds", "param: duration as whole seconds"}
+
+// paramClass labels the syntax of a min / max parameter.
+func paramClass(numKind, what string) string {
+	kv := strings.SplitN(what, "=", 2)
+	if len(kv) != 2 || numKind == "" {
+		return ""
+	}
+	p := kv[1]
+	switch numKind {
+	case "int", "uint":
+		if _, err := strconv.ParseUint(p, 10, 64); err != nil && !(strings.HasPrefix(p, "-") && len(p) > 1 && p[1] >= '1' && p[1] <= '9' && !strings.Contains(p, "_")) {
+			return paramClasses[0]
+		}
+		if len(p) > 1 && p[0] == '0' {
+			return paramClasses[0] // leading zero: octal
+		}
+	case "float":
+		if strings.ContainsAny(p, "eExXpP+") || strings.HasPrefix(p, ".") || p == "-0" {
+			return paramClasses[1]
+		}
+	case "dur":
+		if _, err := time.ParseDuration(p); err == nil && p != "0" {
+			return paramClasses[2]
+		}
+		f, err := strconv.ParseFloat(p, 64)
+		switch {
+		case err != nil:
+			return ""
+		case f < 0:
+			return paramClasses[4]
+		case f != float64(int64(f)):
+			return paramClasses[3]
+		}
+		return paramClasses[5]
+	}
+	return ""
 }
 
 // missesSegments reports whether named is path with some segments left out
@@ -544,7 +653,7 @@ func showGo(t *gen.Tree) string {
 
 var subTwin = runlog.Register(&runlog.Sub[Case]{
 	Name: "twin-differential",
-	Rule: "random struct types (reflect.StructOf over all primitive kinds, named variants, durations, regexps, pointers, slices, arrays, string-keyed maps, nested and inline structs, and 8 hand-written catalogue types with Validate()/InitDefaults/own tags) with validate tags (required, nonzero, positive, min=N, max=N incl. duration parameters, singly or in pairs) on about a third of the fields whose kind the documentation defines them for, at any depth; a pre-filled value (zero value in 1 of 6 cases); a configuration built from the type that mentions about half of the fields (explicit nil settings included); with VarExp (1 of 3) about a fifth of the settings are delivered through ${rN} references. Oracle: unpack configuration and pre-filled value into the twin type (no tags, no Validate methods) to get R; reference validators (documented meaning, applied through non-nil pointers) walk R; all accept => Unpack into the real type succeeds with a result equal to R; one rejects => Unpack fails and the message quotes the path of a rejected field or of an enclosing one; tags of a collection field whose elements are not structs are also applied to the elements and such element-level rejections alone allow either verdict; whenever Unpack returns nil the returned value itself is walked. Non-trivial: a deciding validator (a rejecting one, or any if all accept) judges a value the configuration does not mention (default / InitDefaults) or sits behind a pointer, inside a collection or in an inline field. Distinct: hash of (type, pre-filled value, configuration, VarExp).",
+	Rule: "random struct types (reflect.StructOf over all primitive kinds, named variants, durations, regexps, pointers, slices, arrays, string-keyed maps, nested and inline structs, and 17 hand-written catalogue types with Validate()/InitDefaults/own tags; 9 of them have an InitDefaults that installs exactly one value failing validation - a map entry rejected by the element's Validate(), by a tag of the element struct or of a pointee, a list element / map entry / pointee / tagged field of a struct - which only the configuration can override) with validate tags (required, nonzero, positive, min=N, max=N, singly or in pairs, sometimes spelt with blanks around '=') on about a third of the fields whose kind the documentation defines them for (every second duration field), at any depth; parameters in every syntax the code reads them with: integers decimal, hexadecimal, octal (0o17 and 017), binary, with digit separators and signs, up to the 64-bit limits; floats with exponent, hexadecimal, bare point, sign; duration bounds in unit syntax (compound, fractional, signed) and as plain numbers of seconds (integral, fractional, negative, exponent form); settings on, below and above every bound. Inline fields of every kind the code accepts: about a quarter of the collection types below the top level (an eighth of the struct types, catalogue types included) are replaced by struct{C T `config:\",inline\"`} (a quarter of them spelt squash, a quarter with a named sibling field), whose setting is the list / object itself, and every second inline slice / array / map field carries a required / nonzero tag (inline maps only while D55 is not open). 1 case in 12 unpacks into a map, slice or array target (plain or catalogue type) instead of a struct. A pre-filled value (zero value in 1 of 6 cases); a configuration built from the type that mentions about half of the fields (explicit nil settings included; for maps other keys than the pre-filled / InitDefaults ones as a rule, in 1 of 4 draws the keys InitDefaults inserts); a global list policy in 1 of 3 cases and policy tags on slices; with VarExp (1 of 3) about a fifth of the settings are delivered through ${rN} references. Oracle: unpack configuration and pre-filled value into the twin type (no tags, no Validate methods, same InitDefaults) to get R; reference validators (documented meaning, applied through non-nil pointers, tags of inline fields included) walk R; all accept => Unpack into the real type succeeds with a result equal to R; one rejects => Unpack fails and the message quotes the path of a rejected field or of an enclosing one (nothing to quote for a validator of the target itself or an element of a collection target kept from the pre-filled value); tags of a collection field whose elements are not structs are also applied to the elements and such element-level rejections alone allow either verdict; whenever Unpack returns nil the returned value itself is walked. Non-trivial: a deciding validator (a rejecting one, or any if all accept) judges a value the configuration does not mention (default / InitDefaults) or sits behind a pointer, inside a collection or in an inline field. Distinct: hash of (type, pre-filled value, configuration, VarExp, policy).",
 	Gen:  genCase,
 	Run:  runCase,
 })
